@@ -713,6 +713,7 @@ Qed.
 Lemma ok_h_modify2 : forall cr s u a c, wf_store s -> sites_ok (allowed "MODIFY_ATTRIBUTE" cr) (h_modify2 s u a c).
 Proof.
   intros cr s u a c Hs. unfold h_modify2. apply ok_with_obj; auto. intros o Ho.
+  match goal with |- sites_ok _ (if ?b then _ else _) => destruct b end; [exact I|].
   destruct (find_rule (a_name a)) as [r|] eqn:Hr.
   - unfold q_multivalued, q_modifiable. rewrite !(q_some _ _ _ _ _ Hr).
     destruct (ar_modifiable_by_client r) eqn:Hm; [|exact I]. cbn [negb]; cbv iota.
